@@ -169,9 +169,34 @@ def judge_cyclic(res, report):
         if "proofs_made" in x:
             st["proofs_made"] += x["proofs_made"]
             continue
+        if "badlink" in x:
+            comp = x["badlink"]["component"]
+            pos = (comp, x["badlink"].get("entry", 0), x["badlink"].get("elt", 0))
+            if not x["link_made"]:
+                raise ToolError("a base-case proof with one altered verifier-data component could not be made: %s" % json.dumps(x)[:300])
+            lo = x["link_obs"]
+            payload = {"kind": "cyclic-badlink", "badlink": x["badlink"], "observed": x,
+                       "expected": "the link verifies as a plain proof, check_cyclic_proof_verifier_data rejects it, and no verifying + checked proof extends it"}
+            st["steps"] += 2
+            if not lo["verify"] or lo["embedded_own"]:
+                report("drift", "bad-link-not-as-modelled", "the base-case proof with altered %s: verify=%s embedded_own=%s" % (comp, lo["verify"], lo["embedded_own"]), payload)
+            if lo["check_vd"]:
+                report("violation", "C20/cyclic/check_vd-accepts-altered/bad-link/%s" % comp,
+                       "check_cyclic_proof_verifier_data accepts a proof whose embedded %s differs" % comp, payload)
+            eo = x.get("extended_obs")
+            if x["extend_outcome"] == "ok" and eo and eo["verify"] and eo["check_vd"]:
+                report("violation", "C20/cyclic/chain-extended-from-bad-link/%s" % comp,
+                       "a recursive step on a link whose embedded %s differs from the circuit's yields a proof that passes verify and check_cyclic_proof_verifier_data" % comp, payload)
+            elif lo["verify"] and not lo["check_vd"]:
+                st.setdefault("badlinks_ok", set()).add(pos)
+                st["matched"] += 2
+            st.setdefault("pairs", set()).update({("-", "BadBaseDigest" if comp == "digest" else "BadBaseCap"),
+                                                  ("BadBaseDigest" if comp == "digest" else "BadBaseCap", "StepRec")})
+            continue
         if "act" not in x:
             continue
         st["steps"] += 1
+        st.setdefault("pairs", set()).add((last_act.get((x["id"], x["history"]), "-"), x["act"]))
         hk = (x["id"], x["history"])
         st["histories"].add(hk)
         e, o = x["expect"], x["obs"]
@@ -247,13 +272,19 @@ def run(chk, tier):
             "the verifier data is not selected": ("Conditional", "Conditional_canary_vd_not_selected"),
             "one proof element is not selected": ("Conditional", "Conditional_canary_element_not_selected"),
             "the verifier-data check compares the digest only": ("Cyclic", "Cyclic_canary_checkvd_digest_only"),
+            "the step connects only the digest of the embedded verifier data": ("Cyclic", "Cyclic_canary_step_ties_digest_only"),
             "the inner proof is verified under the data it carries": ("Cyclic", "Cyclic_canary_verify_under_embedded")}.items()}
         fp1 = ex.submit(c01.tlc_programs, chk, "Programs_len1", "Programs: all one-instruction programs")
         fcf = ex.submit(common.tlc, "Configs", "Configs", 1, 300)
         rc, ry = fc.result(), fy.result()
         ry5 = fy5.result() if fy5 else None
+        cex = {}
         for n, f in cans.items():
-            chk.canary("spec mutant: %s -> TLC counterexample" % n, f.result().violated is not None)
+            rr = f.result()
+            chk.canary("spec mutant: %s -> TLC counterexample" % n, rr.violated is not None)
+            if rr.cmd and "Cyclic" in rr.cmd:
+                hl = [l for l in rr.raw.splitlines() if l.startswith("/\\ h = ")]
+                cex[n] = re.findall(r'act \|-> "([A-Za-z]+)"', hl[-1]) if hl else []
         p1, rcf = fp1.result(), fcf.result()
     bt.join()
     if "build_error" in bg:
@@ -290,7 +321,14 @@ def run(chk, tier):
     hs = [long3[rnd.randrange(len(long3))]] + pick_histories(list(hist4), rnd, 40 if thorough else 8)
     if thorough:
         hs += pick_histories(list(hist5), rnd, 12)
-    cyc_row = {"id": "y0", "histories": [{"start": (0 if i % 3 == 2 else 7), "steps": h} for i, h in enumerate(hs)]}
+    # links whose embedded verifier data differ in exactly one component: the digest, or one cap element (entries and
+    # first / last element of an entry), each made as an otherwise honest base-case proof and then extended
+    if thorough:
+        badlinks = [{"component": "digest", "elt": e} for e in range(4)] + [{"component": "cap", "entry": i, "elt": e} for i in range(16) for e in (0, 3)]
+    else:
+        badlinks = [{"component": "digest", "elt": 0}, {"component": "digest", "elt": 3}] + \
+                   [{"component": "cap", "entry": i, "elt": e} for i, e in ((0, 0), (0, 3), (7, 3), (15, 0), (15, 3))]
+    cyc_row = {"id": "y0", "histories": [{"start": (0 if i % 3 == 2 else 7), "steps": h} for i, h in enumerate(hs)], "badlinks": badlinks}
     # ---- B: the three replays side by side
     with ThreadPoolExecutor(max_workers=3) as ex:
         f1 = ex.submit(vh, "cyclic", [cyc_row], "c20_cyclic")
@@ -322,7 +360,7 @@ def run(chk, tier):
     chk.sample({"cyclic_result": next((x for x in rcy if x.get("act") == "StepRec"), None)})
     chk.extra["conditional"] = {k: (len(v) if isinstance(v, set) else v) for k, v in sc.items()}
     chk.extra["dummy"] = sd
-    chk.extra["cyclic"] = {k: (sorted(v) if k == "rejected_after" else len(v) if isinstance(v, set) else v) for k, v in sy.items()}
+    chk.extra["cyclic"] = {k: (sorted(v) if k == "rejected_after" else len(v) if isinstance(v, set) else v) for k, v in sy.items() if k != "badlinks_ok"}
     caps_built = {b["inner_cap_height"] for b in sc.get("or_dummy_builds", []) if b["built"]}
     if not {0, 1, 2, 3, 4} <= caps_built | {int(k.split("-")[-1].split("/")[0]) for k, _, _ in chk.violations if k.startswith("C20/or-dummy/inner-cap-")} or (
             caps_built and sc.get("or_dummy_cases", 0) < 6 * len(caps_built)):
@@ -331,6 +369,18 @@ def run(chk, tier):
         raise ToolError("vacuity (conditional): %s" % chk.extra["conditional"])
     if sd["dummy_circuits"] < ndummy // 3 or sd["proofs"] < sd["dummy_circuits"] * 3:
         raise ToolError("vacuity (dummy): %s" % sd)
+    bl = sy.get("badlinks_ok", set())
+    chk.extra["cyclic"]["badlinks_ok"] = sorted("%s/%d/%d" % t for t in bl)
+    chk.extra["cyclic"].pop("pairs", None)
+    if not any(c == "digest" for c, _, _ in bl) or len({(i, e) for c, i, e in bl if c == "cap"}) < 2 or len({e for c, i, e in bl if c == "cap"}) < 2:
+        raise ToolError("vacuity (cyclic bad links): %s" % sorted(bl))
+    # the counterexamples of the Cyclic mutants must be behaviours the replay executes (consecutive actions)
+    for n, acts in cex.items():
+        pairs = set(zip(["-"] + acts, acts))
+        pairs = {p for p in pairs if p[0] != "-"} or {("-", a) for a in acts}
+        have = sy.get("pairs", set())
+        chk.canary("the counterexample of the spec mutant '%s' (%s) is part of the replay" % (n, " -> ".join(acts)),
+                   bool(acts) and all(p in have or (p[0] == "-" and any(q[1] == p[1] for q in have)) for p in pairs))
     if sy["step_ok"] < 6 or len(sy["rejected_after"]) < (3 if thorough else 2) or sy["altered_checked"] < 5 or sy["max_chain"] < 3:
         raise ToolError("vacuity (cyclic): %s" % chk.extra["cyclic"])
     # ---- binding canaries
